@@ -160,21 +160,23 @@ def check_chain(acc, pn, P, cn, C, mode):
     acc.case(["chain", mode, pn, cn], nontrivial=accepted and nvalid >= 1)
 
 
-def make_pair(P, C, declared=False):
+def make_pair(P, C, declared=False, default=OMIT):
     from metador_core.schema import MetadataSchema
     from metador_core.schema.decorators import override
     _ctr[0] += 1
     Par = type(MetadataSchema)(f"Par{_ctr[0]}", (MetadataSchema,), {"__annotations__": {"f": P}, "__module__": __name__})
-    Chi = type(MetadataSchema)(f"Chi{_ctr[0]}", (Par,), {"__annotations__": {"f": C}, "__module__": __name__})
+    extra = {} if default is OMIT else {"f": default}  # `f: C = None` makes the field optional whatever C says
+    Chi = type(MetadataSchema)(f"Chi{_ctr[0]}", (Par,), {"__annotations__": {"f": C}, "__module__": __name__, **extra})
     if declared:
         Chi = override("f")(Chi)
     return Par, Chi
 
 
-def check_pair(acc, pn, P, cn, C):
+def check_pair(acc, pn, P, cn, C, default=OMIT):
     from metador_core.schema.core import check_types
+    tag = "" if default is OMIT else " = None"
     try:
-        Par, Chi = make_pair(P, C)
+        Par, Chi = make_pair(P, C, default=default)
     except Exception as e:
         acc.count("pairs.class_creation_failed")
         return
@@ -200,12 +202,15 @@ def check_pair(acc, pn, P, cn, C):
             try:
                 Par.parse_raw(b)
             except Exception as e:
-                acc.violation(f"unsound-override:{pn}<-{cn}",
-                              f"check_types accepts child field type {cn} for parent type {pn}, but value {'<f omitted>' if v is OMIT else repr(v)} is a valid child "
+                acc.violation(f"unsound-override:{pn}<-{cn}{tag}",
+                              f"check_types accepts child field `f: {cn}{tag}` for parent type {pn}, but value {'<f omitted>' if v is OMIT else repr(v)} is a valid child "
                               f"instance ({b.decode().strip()}) that the parent rejects ({type(e).__name__})",
                               {"parent": pn, "child": cn, "value": None if v is OMIT else json.loads(json.dumps(v))})
                 break
-    acc.case(["pair", pn, cn], nontrivial=accepted and nvalid >= 1)
+    acc.case(["pair", pn, cn, tag], nontrivial=accepted and nvalid >= 1)
+    if default is not OMIT:
+        acc.count("pairs.default_none." + ("accepted" if accepted else "rejected"))
+        return
     # declared override must be accepted regardless
     if not accepted and pn != cn and not any(b in pn or b in cn for b in INVALID_ON_OWN):
         # (a pair involving a nested class that is invalid on its own is rightly refused whatever is declared for f)
@@ -244,6 +249,46 @@ def check_extra_policy(acc):
         acc.violation("extra-policy-new-field", "child adds a field although the parent forbids extra fields", {"kind": "extra", "policy": "new-field"})
     except TypeError:
         pass
+    # children of a parent that forbids extras, adding things in every way a class body can: whatever is ACCEPTED (class creation
+    # and check_types) must only have instances the parent accepts too
+    from typing import ClassVar, Optional
+    from pydantic import Field
+    from metador_core.schema.core import check_types
+    variants = {
+        "annotated field": {"__annotations__": {"b": Int}},
+        "optional annotated field": {"__annotations__": {"b": Optional[Int]}},
+        "annotated field with default": {"__annotations__": {"b": Int}, "b": 3},
+        "default value only": {"__annotations__": {}, "note": "x"},
+        "default value only (number)": {"__annotations__": {}, "count": 0},
+        "Field() default only": {"__annotations__": {}, "note": Field("x")},
+        "class variable": {"__annotations__": {"K": ClassVar[int]}, "K": 1},
+        "private attribute": {"__annotations__": {}, "_hidden": 1},
+        "method": {"__annotations__": {}, "helper": lambda self: 1},
+    }
+    for vname, body in variants.items():
+        class PF3(MetadataSchema):
+            class Config:
+                extra = "forbid"
+            a: Int
+        acc.count("extra_policy_checks")
+        acc.case(["extra", "child-variant", vname], nontrivial=True)
+        try:
+            CF3 = type(MetadataSchema)("CF3", (PF3,), dict(body, __module__=__name__))
+            check_types(CF3)
+        except Exception:
+            acc.count("extra_policy.child_refused")
+            continue
+        acc.count("extra_policy.child_accepted")
+        try:
+            inst = CF3(a=1)
+            b = bytes(inst)
+        except Exception:
+            continue
+        try:
+            PF3.parse_raw(b)
+        except Exception as e:
+            acc.violation("extra-policy-new-field", f"child of a parent that forbids extra fields is accepted with '{vname}', but its instance {b.decode().strip()} is "
+                                                    f"rejected by the parent ({type(e).__name__})", {"kind": "extra", "policy": vname})
     # control: same policy / stricter child is fine
     class PA(MetadataSchema):
         a: Int
@@ -296,6 +341,8 @@ def run_unit(u, acc):
         P = _pool[acc.tier]
         for cn in sorted(P):
             check_pair(acc, u["parent"], P[u["parent"]], cn, P[cn])
+            if cn == u["parent"] or hash((cn, u["parent"])) % 5 == 0 or acc.tier == "thorough":
+                check_pair(acc, u["parent"], P[u["parent"]], cn, P[cn], default=None)  # the child gives the field a None default
             if u["parent"].startswith("Opt["):
                 for mode in ("mandatory", "reannotate"):
                     check_chain(acc, u["parent"], P[u["parent"]], cn, P[cn], mode)
